@@ -1,0 +1,89 @@
+//go:build verif
+
+package pppoe
+
+import (
+	"net"
+	"sync"
+	"time"
+
+	"go.uber.org/zap"
+)
+
+// VerifFrame is one frame the server handed to its raw socket.
+type VerifFrame struct {
+	Dst       net.HardwareAddr
+	EtherType uint16
+	Data      []byte
+}
+
+// VerifSocket is an in-memory rawSocket that records what the server sends.
+type VerifSocket struct {
+	mu     sync.Mutex
+	frames []VerifFrame
+}
+
+func (v *VerifSocket) open(iface string, etherType uint16) error { return nil }
+func (v *VerifSocket) close() error                              { return nil }
+func (v *VerifSocket) recv(buf []byte) (int, error)              { select {} }
+func (v *VerifSocket) send(iface string, dstMAC net.HardwareAddr, etherType uint16, data []byte) error {
+	v.mu.Lock()
+	defer v.mu.Unlock()
+	v.frames = append(v.frames, VerifFrame{
+		Dst:       append(net.HardwareAddr(nil), dstMAC...),
+		EtherType: etherType,
+		Data:      append([]byte(nil), data...),
+	})
+	return nil
+}
+
+// Count returns the number of frames sent so far.
+func (v *VerifSocket) Count() int {
+	v.mu.Lock()
+	defer v.mu.Unlock()
+	return len(v.frames)
+}
+
+// Drain returns and forgets the frames sent so far.
+func (v *VerifSocket) Drain() []VerifFrame {
+	v.mu.Lock()
+	defer v.mu.Unlock()
+	out := v.frames
+	v.frames = nil
+	return out
+}
+
+// NewServerForVerif builds a Server on an in-memory socket (no interface, no goroutines).
+func NewServerForVerif(cfg ServerConfig, logger *zap.Logger, serverMAC net.HardwareAddr) (*Server, *VerifSocket, error) {
+	s, err := newServerWithInterface(cfg, logger, &net.Interface{Name: cfg.Interface, HardwareAddr: serverMAC})
+	if err != nil {
+		return nil, nil, err
+	}
+	sock := &VerifSocket{}
+	s.socket = sock
+	return s, sock, nil
+}
+
+// HandleDiscoveryForVerif feeds one PPPoE discovery payload (after the Ethernet header).
+func (s *Server) HandleDiscoveryForVerif(src net.HardwareAddr, data []byte) {
+	s.handleDiscovery(src, data)
+}
+
+// HandleSessionForVerif feeds one PPPoE session payload (after the Ethernet header).
+func (s *Server) HandleSessionForVerif(src net.HardwareAddr, data []byte) { s.handleSession(src, data) }
+
+// SessionsForVerif returns the live sessions.
+func (s *Server) SessionsForVerif() []*Session { return s.sessions.GetAllSessions() }
+
+// PoolCountsForVerif returns (free addresses, addresses recorded as allocated) of the client pool.
+func (s *Server) PoolCountsForVerif() (int, int) {
+	if s.clientIPPool == nil {
+		return 0, 0
+	}
+	return len(s.clientIPPool.available), len(s.clientIPPool.allocated)
+}
+
+// CleanupExpiredForVerif runs one idle-session sweep with the given timeout.
+func (s *Server) CleanupExpiredForVerif(timeoutNs int64) int {
+	return s.sessions.CleanupExpired(time.Duration(timeoutNs))
+}
